@@ -153,6 +153,18 @@ func getFields(n map[string]ast.Node) (map[string]fields.Field, error) {
 					if !skip {
 						parent.Children = append(parent.Children, f)
 					}
+				} else if len(x.Names) > 1 {
+					// "A, b, C int32" declares three fields, each
+					// exported name is a column of its own.
+					for _, id := range x.Names {
+						if !ast.IsExported(id.Name) {
+							continue
+						}
+						f, skip := getField(id.Name, x, nil)
+						if !skip {
+							parent.Children = append(parent.Children, f)
+						}
+					}
 				} else if len(x.Names) == 0 && !isPrivate(x) {
 					f, skip := getField(fmt.Sprintf("%s", x.Type), x, nil)
 					f.Embedded = true
